@@ -85,9 +85,10 @@ def arrival_guard(ctx, P, iters):
                     continue
                 recv = e.d["recv"]
                 pc = _pc_formula(st.events, i)
+                recs_all = st.events if recv == EXIT else st.events[:i]      # at the exit the record may be written before or after the hand-over
                 rejected = any(x.kind == "call" and x.d["meth"] == "write_baulking_or_rejection_record"
-                               and x.d["kw"].get("record_type", (x.d["args"] + ["", ""])[1]) == "'rejection'" for x in st.events[:i])
-                baulked = any(x.kind == "call" and x.d["meth"] == "write_baulking_or_rejection_record" for x in st.events[:i]) and not rejected
+                               and x.d["kw"].get("record_type", (x.d["args"] + ["", ""])[1]) == "'rejection'" for x in recs_all)
+                baulked = any(x.kind == "call" and x.d["meth"] == "write_baulking_or_rejection_record" for x in recs_all) and not rejected
                 if recv != EXIT:
                     n_admit += 1
                     want = admit_formula(recv)
@@ -106,7 +107,7 @@ def arrival_guard(ctx, P, iters):
                                           "population of the tested node changes between the capacity test and accept()", x.where, witness(st))
                 elif rejected:
                     n_reject += 1
-                    rec = [x for x in st.events[:i] if x.kind == "call" and x.d["meth"] == "write_baulking_or_rejection_record"][0]
+                    rec = [x for x in recs_all if x.kind == "call" and x.d["meth"] == "write_baulking_or_rejection_record"][0]
                     node = rec.d["recv"]
                     want = guards.neg(admit_formula(node))
                     okk, cex = guards.implies(pc, want)
@@ -121,7 +122,7 @@ def arrival_guard(ctx, P, iters):
                                       "the rejection record is written by a node other than the one that was tested", rec.where, witness(st))
                 elif baulked:
                     # baulking happens only after admission was possible
-                    rec = [x for x in st.events[:i] if x.kind == "call" and x.d["meth"] == "write_baulking_or_rejection_record"][0]
+                    rec = [x for x in recs_all if x.kind == "call" and x.d["meth"] == "write_baulking_or_rejection_record"][0]
                     want = admit_formula(rec.d["recv"])
                     okk, cex = guards.implies(pc, want)
                     ob.ok("%s:baulk:%s" % (view.name, rec.d["recv"]))
